@@ -40,6 +40,32 @@ structure Rev (α : Type) where
   clam : α
   h : α
 
+/-- Vermeille's `u` (a root of the resolvent cubic `u³ − 3r u² = 2S`): Cardano branch for `disc ≥ 0`, trigonometric branch otherwise -/
+def vermU (S r : α) : α :=
+  let zero : α := RealLike.ofNat 0
+  let r2 := sq r
+  let r3 := r * r2
+  let disc := S * ((2 : α) * r3 + S)
+  if RealLike.leb zero disc then
+    let T3 := S + r3
+    let T3 := T3 + (if RealLike.ltb T3 zero then -(RealLike.sqrt disc) else RealLike.sqrt disc)
+    let T := RealLike.cbrt T3
+    r + (T + (if RealLike.eqb T zero then zero else r2 / T))
+  else
+    let ang := RealLike.atan2 (RealLike.sqrt (-disc)) (-(S + r3))
+    r + (2 : α) * r * RealLike.cos (ang / 3)
+
+/-- Vermeille's `k` (the positive root of `p/(k+e²)² + q/k² = 1`) from `u`; returns `(k1, k2)` = `(k, k + e²)` (oblate) or `(k − e², k)` (prolate) -/
+def vermK (E : Ell α) (p q r : α) (prolate : Bool) : α × α :=
+  let zero : α := RealLike.ofNat 0
+  let S := e4a E * p * q / 4
+  let u := vermU S r
+  let v := RealLike.sqrt (sq u + e4a E * q)
+  let uv := if RealLike.ltb u zero then e4a E * q / (v - u) else u + v
+  let w := RealLike.max zero (e2a E * (uv - q) / ((2 : α) * v))
+  let k := uv / (RealLike.sqrt (uv + sq w) + w)
+  (if prolate then k - e2 E else k, if prolate then k else k + e2 E)
+
 /-- `Geocentric::IntReverse` up to the final `atan2d` calls; `maxrad = 2a/ε` -/
 def reverse (E : Ell α) (maxrad : α) (X Y Z : α) : Rev α :=
   let zero : α := RealLike.ofNat 0
@@ -66,25 +92,9 @@ def reverse (E : Ell α) (maxrad : α) (X Y Z : α) : Rev α :=
     let p := if prolate then q0 else p0
     let q := if prolate then p0 else q0
     if !(RealLike.eqb (e4a E * q) zero && RealLike.leb r zero) then
-      let S := e4a E * p * q / 4
-      let r2 := sq r
-      let r3 := r * r2
-      let disc := S * ((2 : α) * r3 + S)
-      let u :=
-        if RealLike.leb zero disc then
-          let T3 := S + r3
-          let T3 := T3 + (if RealLike.ltb T3 zero then -(RealLike.sqrt disc) else RealLike.sqrt disc)
-          let T := RealLike.cbrt T3
-          r + (T + (if RealLike.eqb T zero then zero else r2 / T))
-        else
-          let ang := RealLike.atan2 (RealLike.sqrt (-disc)) (-(S + r3))
-          r + (2 : α) * r * RealLike.cos (ang / 3)
-      let v := RealLike.sqrt (sq u + e4a E * q)
-      let uv := if RealLike.ltb u zero then e4a E * q / (v - u) else u + v
-      let w := RealLike.max zero (e2a E * (uv - q) / ((2 : α) * v))
-      let k := uv / (RealLike.sqrt (uv + sq w) + w)
-      let k1 := if prolate then k - e2 E else k
-      let k2 := if prolate then k else k + e2 E
+      let kk := vermK E p q r prolate
+      let k1 := kk.1
+      let k2 := kk.2
       let d := k1 * R / k2
       let H := RealLike.hypot (Z / k1) (R / k2)
       ⟨(Z / k1) / H, (R / k2) / H, slam, clam, (one - e2m E / k1) * RealLike.hypot d Z⟩
